@@ -59,7 +59,8 @@ Definition bump (s : st) (used : N) : st :=
 Inductive pval := PVErr (e : err) | PVOther (id : N) (fmtv : string).
 Inductive cbres := Normal (r : option err) | Panicking (v : pval).
 
-Definition pv_msg (v : pval) : string := match v with PVErr e => err_msg e | PVOther _ s => s end.
+(* newPanicError: fmt.Sprintf("%v", panicValue) *)
+Definition pv_msg (v : pval) : string := match v with PVErr e => fmt_v e | PVOther _ s => s end.
 
 (* the deferred function of Recover: wrap a recovered value; addresses a (panicError), a+1 (definedError) *)
 Definition recovered (a : N) (d : defn) (v : pval) (stk : list frame) : err :=
@@ -117,7 +118,7 @@ Definition step (s : st) (x : stmt) : st :=
       let '(r, n) := c_recover s f c stk in add_err s r (n - a)%N
   | SFmtErrorf msg c =>
       match get_err s (Some c) with
-      | Some e => add_err s (Some (EWrapF a (msg ++ ": " ++ err_msg e) e)) 1
+      | Some e => add_err s (Some (EWrapF a (msg ++ ": " ++ fmt_v e) e)) 1
       | None => add_err s (Some (ELeaf a (msg ++ ": %!w(<nil>)") "*fmt.wrapError")) 1
       end
   | SErrorsJoin cs => add_err s (errors_join a (map (get_err s) cs)) 1
